@@ -64,12 +64,19 @@ func (tr *Transaction) flush() error {
 	return nil
 }
 
+var zzCommitRecSeq uint64
+var zzCommitRecHasSeq bool
+var zzCommitRecTables int
+
 func (s *session) commit(r *sessionRecord, trivial bool) error {
 	zzCommitCalls++
 	if err := zzFail(); err != nil {
 		return err
 	}
 	zzCommitOK++
+	zzCommitRecHasSeq = r.has(recSeqNum)
+	zzCommitRecSeq = r.seqNum
+	zzCommitRecTables = len(r.addedTables)
 	return nil
 }
 
@@ -137,6 +144,12 @@ func ZZ_C09_transaction() {
 			zzCheckReleased(db, "commit-ok")
 			vpAssert(db.seq == seq0+uint64(nput), "commit-publishes-sequence")
 			vpAssert(len(tr.tables) == 0 || zzCommitOK == 1, "commit-exactly-one-successful-edit")
+			if len(tr.tables) != 0 {
+				// the manifest edit carries every table of the transaction and the
+				// sequence number of its last record: a reopen must see all of it
+				vpAssert(zzCommitRecTables == len(tr.tables), "commit-edit-carries-all-tables")
+				vpAssert(zzCommitRecHasSeq && zzCommitRecSeq == seq0+uint64(nput), "commit-edit-records-final-sequence")
+			}
 		} else {
 			vpAssert(db.seq == seq0, "failed-commit-leaves-sequence")
 			vpAssert(zzCommitOK == 0, "failed-commit-no-edit-applied")
